@@ -102,11 +102,12 @@ Theorem c15_replay_gain_spellings :
   rg_str RgOff = b "off" /\ rg_str RgTrack = b "track" /\ rg_str RgAlbum = b "album" /\ rg_str RgAuto = b "auto".
 Proof. exact replay_gain_spellings_documented. Qed.
 
-(* shape pins of the hand-modelled renderers (saturating_add(1), "{}:{}", "{:.3}" of as_secs_f64,
-   Tag's raw rendering): tripwires regenerated from the source on every run *)
+(* pins of the hand-modelled renderers that the translator decides over a complete finite universe
+   (saturation of x+1 at usize::MAX; Tag's raw rendering), regenerated from the repository on every run.
+   The text formats "{}:{}" and "{:.3}" of as_secs_f64 are tripwires in the evidence, not statements:
+   the correspondence run and the oracle decide them on every run. *)
 Theorem c15_renderer_pins :
-  range_saturating = true /\ pin_songrange_argument = true /\ pin_duration_argument = true /\
-  pin_seek_format = true /\ pin_tag_argument = true.
+  range_saturating = true /\ pin_tag_argument = true.
 Proof. exact renderer_pins. Qed.
 
 (* numbers are talked about numerically: reading a rendered numeral gives the number back *)
